@@ -498,7 +498,11 @@ type treeSpec struct {
 	iterMode  string // "for" (begin 0 end 1) | "range" (one element: x{{ k }}y)
 	inYAML    bool   // role-level defaults/vars come from the document (else set through the API later)
 	includeAt int    // this level is an include role; the next level is the root of the included document "sub"
+	tagged    bool   // defaults/vars entries of the key are written as `!public {value: ..}` mappings (input widget metadata)
 }
+
+// publicMark prefixes a value that docFrom turns into a `!public` mapping after JSON encoding.
+const publicMark = "\x01PUBLIC:"
 
 const probeText = "x{{ %s }}y"
 
@@ -549,11 +553,15 @@ func (ts *treeSpec) docFrom(top int, c *combo, mask map[probe]bool, s0want map[i
 		d := map[string]string{}
 		v := map[string]string{}
 		if ts.inYAML {
+			mark := ""
+			if ts.tagged {
+				mark = publicMark
+			}
 			if t, ok := slotText(c, l, kD); ok {
-				d[key] = t
+				d[key] = mark + t
 			}
 			if t, ok := slotText(c, l, kV); ok {
-				v[key] = t
+				v[key] = mark + t
 			}
 		}
 		if mask[probe{l, 1}] {
@@ -587,6 +595,24 @@ func (ts *treeSpec) docFrom(top int, c *combo, mask map[probe]bool, s0want map[i
 	enc.SetEscapeHTML(false)
 	if err := enc.Encode(role(top)); err != nil {
 		panic(err)
+	}
+	if ts.tagged {
+		// "k":"\u0001PUBLIC:<text>"  ->  "k": !public {"value":"<text>","type":"string","label":"widget"}  (flow-style YAML)
+		out := buf.String()
+		const open = "\"\\u0001PUBLIC:"
+		for {
+			i := strings.Index(out, open)
+			if i < 0 {
+				break
+			}
+			j := i + len(open)
+			e := j
+			for out[e] != '"' || out[e-1] == '\\' {
+				e++
+			}
+			out = out[:i] + " !public {\"value\":\"" + out[j:e] + "\",\"type\":\"string\",\"label\":\"widget\"}" + out[e+1:]
+		}
+		return []byte(out)
 	}
 	return buf.Bytes()
 }
@@ -957,126 +983,134 @@ func scenarioTemplates() func(r *vrt.DirectReport, tier string) {
 			// the root's user-var slot without the empty state (covered by the quick grid and by the stack scenario)
 			roleAx = append([]axis{{1, kD, avE}, {1, kV, avE}, {1, kU, av}}, axes(roleLv[1:], allK, avE)...)
 		}
-		loads, evals, diagnoses := 0, 0, 0
-		forEach(L, envAx, func(ec *combo) {
-			w := newWorld(ec)
-			forEach(L, roleAx, func(c *combo) {
-				copy(c.s[:3], ec.s[:3])
-				evals++
-				// what the model says every probe sees
-				want := map[probe]src{}
-				joint := map[probe]bool{}
-				s0 := map[int]string{}
-				var undef []probe
-				for l := 1; l <= L; l++ {
-					for st := 0; st <= 5; st++ {
-						p := probe{l, st}
-						s := c.resolve(l, ownVisible(st), false)
-						want[p] = s
-						if s.defined() {
-							joint[p] = true
-							if st == 0 {
-								s0[l] = c.value(s)
-							}
-						} else if st != 0 {
-							undef = append(undef, p)
-						}
-					}
-				}
-				res := ts.runLoad(w, c, joint, s0)
-				loads++
-				ok := res.err == nil && res.shape
-				if ok {
-					for p := range joint {
-						if p.stage == 0 {
-							continue
-						}
-						if res.values[p] != c.value(want[p]) {
-							ok = false
-						}
-						if p.stage <= 3 && res.leafPS[p] != c.value(want[p]) {
-							ok = false
-						}
-					}
-				}
-				if ok {
-					// the joint load agrees with the model on every probe: account per probe
-					for l := 1; l <= L; l++ {
-						for st := 0; st <= 5; st++ {
-							p := probe{l, st}
-							if joint[p] {
-								if st == 0 {
-									b.check(stageObs(0), c, l, want[p], c.value(want[p]))
-								} else {
-									b.check(stageObs(st), c, l, want[p], res.values[p])
-								}
-							}
-						}
-						b.check("ConsolidatedVarStack(after ProcessTemplates)", c, l, c.resolve(l, allOwn, false), res.stacks[l-1])
-					}
-				} else if diagnoses >= 1500 {
-					// already diagnosed many deviating distributions probe by probe: only count this one
-					r.Count("joint load deviates from the model (diagnosis budget used up) -> VIOLATION")
-				} else {
-					// something deviates: one load per probe to name it
-					diagnoses++
-					for l := 1; l <= L; l++ {
-						for st := 0; st <= 5; st++ {
-							p := probe{l, st}
-							if !joint[p] {
-								continue
-							}
-							one := ts.runLoad(w, c, map[probe]bool{p: true}, s0)
-							loads++
-							got := obsError
-							if one.err == nil {
-								if st == 0 {
-									got = "other(role disabled)"
-									if one.shape {
-										got = c.value(want[p])
-									}
-								} else if !one.shape {
-									got = "other(role pruned)"
-								} else {
-									got = one.values[p]
-								}
-							}
-							good := b.check(stageObs(st), c, l, want[p], got)
-							if good && st >= 1 && st <= 3 {
-								b.check("descendant sees resolved "+stageObs(st), c, l, want[p], one.leafPS[p])
-							}
-						}
-					}
-					plain := ts.runLoad(w, c, nil, nil)
-					loads++
-					for l := 1; l <= L; l++ {
-						got := obsError
-						if plain.err == nil && plain.shape {
-							got = plain.stacks[l-1]
-						}
-						b.check("ConsolidatedVarStack(after ProcessTemplates)", c, l, c.resolve(l, allOwn, false), got)
-					}
-				}
-				// probes the model says see nothing: the load must not produce a value
-				for _, p := range undef {
-					one := ts.runLoad(w, c, map[probe]bool{p: true}, nil)
-					loads++
-					got := obsError
-					if one.err == nil {
-						got = "other(role pruned)"
-						if one.shape {
-							got = one.values[p]
-						}
-					}
-					b.check(stageObs(p.stage), c, p.level, undefinedSrc, got)
-				}
-				if evals == 5000 {
-					r.Samples = append(r.Samples, fmt.Sprintf("templates: %s -> leaf name sees %s, leaf defaults entry sees %s", c, c.srcName(want[probe{L, 4}], L), c.srcName(want[probe{L, 1}], L)))
-				}
-			})
-		})
+		evals, loads := stageGrid(r, b, ts, envAx, roleAx, func(int) []int { return []int{0, 1, 2, 3, 4, 5} }, "", 5000)
 		r.Notes = append(r.Notes, fmt.Sprintf("grid: environment x %d role levels (root..task leaf), defaults/vars in the YAML document, role user vars via SetRuntimeVar before ProcessTemplates; axes %s x %s = %d distributions, %d real loads; probes per role: enabled (stage 0), a defaults entry (1), a vars entry (2), a user-var entry (3), the name (4), a constraint (5), each referring to the key", L, describeAxes(envAx), describeAxes(roleAx), evals, loads))
 	}
+}
+
+// stageGrid: every distribution of the axes is loaded for real with a probe in every field class of every role
+// (stages(l) = the stages probed at level l) and compared with the model; pfx goes in front of the observation names.
+func stageGrid(r *vrt.DirectReport, b *book, ts *treeSpec, envAx, roleAx []axis, stages func(l int) []int, pfx string, sampleAt int) (evals, loads int) {
+	L := ts.L
+	diagnoses := 0
+	forEach(L, envAx, func(ec *combo) {
+		w := newWorld(ec)
+		forEach(L, roleAx, func(c *combo) {
+			copy(c.s[:3], ec.s[:3])
+			evals++
+			// what the model says every probe sees
+			want := map[probe]src{}
+			joint := map[probe]bool{}
+			s0 := map[int]string{}
+			var undef []probe
+			for l := 1; l <= L; l++ {
+				for _, st := range stages(l) {
+					p := probe{l, st}
+					s := c.resolve(l, ownVisible(st), false)
+					want[p] = s
+					if s.defined() {
+						joint[p] = true
+						if st == 0 {
+							s0[l] = c.value(s)
+						}
+					} else if st != 0 {
+						undef = append(undef, p)
+					}
+				}
+			}
+			res := ts.runLoad(w, c, joint, s0)
+			loads++
+			ok := res.err == nil && res.shape
+			if ok {
+				for p := range joint {
+					if p.stage == 0 {
+						continue
+					}
+					if res.values[p] != c.value(want[p]) {
+						ok = false
+					}
+					if p.stage <= 3 && res.leafPS[p] != c.value(want[p]) {
+						ok = false
+					}
+				}
+			}
+			if ok {
+				// the joint load agrees with the model on every probe: account per probe
+				for l := 1; l <= L; l++ {
+					for _, st := range stages(l) {
+						p := probe{l, st}
+						if joint[p] {
+							if st == 0 {
+								b.check(pfx+stageObs(0), c, l, want[p], c.value(want[p]))
+							} else {
+								b.check(pfx+stageObs(st), c, l, want[p], res.values[p])
+							}
+						}
+					}
+					b.check(pfx+"ConsolidatedVarStack(after ProcessTemplates)", c, l, c.resolve(l, allOwn, false), res.stacks[l-1])
+				}
+			} else if diagnoses >= 1500 {
+				// already diagnosed many deviating distributions probe by probe: only count this one
+				r.Count(pfx + "joint load deviates from the model (diagnosis budget used up) -> VIOLATION")
+			} else {
+				// something deviates: one load per probe to name it
+				diagnoses++
+				for l := 1; l <= L; l++ {
+					for _, st := range stages(l) {
+						p := probe{l, st}
+						if !joint[p] {
+							continue
+						}
+						one := ts.runLoad(w, c, map[probe]bool{p: true}, s0)
+						loads++
+						got := obsError
+						if one.err == nil {
+							if st == 0 {
+								got = "other(role disabled)"
+								if one.shape {
+									got = c.value(want[p])
+								}
+							} else if !one.shape {
+								got = "other(role pruned)"
+							} else {
+								got = one.values[p]
+							}
+						}
+						good := b.check(pfx+stageObs(st), c, l, want[p], got)
+						if good && st >= 1 && st <= 3 {
+							b.check(pfx+"descendant sees resolved "+stageObs(st), c, l, want[p], one.leafPS[p])
+						}
+					}
+				}
+				plain := ts.runLoad(w, c, nil, nil)
+				loads++
+				for l := 1; l <= L; l++ {
+					got := obsError
+					if plain.err == nil && plain.shape {
+						got = plain.stacks[l-1]
+					}
+					b.check(pfx+"ConsolidatedVarStack(after ProcessTemplates)", c, l, c.resolve(l, allOwn, false), got)
+				}
+			}
+			// probes the model says see nothing: the load must not produce a value
+			for _, p := range undef {
+				one := ts.runLoad(w, c, map[probe]bool{p: true}, nil)
+				loads++
+				got := obsError
+				if one.err == nil {
+					got = "other(role pruned)"
+					if one.shape {
+						got = one.values[p]
+					}
+				}
+				b.check(pfx+stageObs(p.stage), c, p.level, undefinedSrc, got)
+			}
+			if evals == sampleAt {
+				r.Samples = append(r.Samples, fmt.Sprintf("%stemplates: %s -> leaf name sees %s, leaf defaults entry sees %s", pfx, c, c.srcName(want[probe{L, 4}], L), c.srcName(want[probe{L, 1}], L)))
+			}
+		})
+	})
+	return
 }
 
 // ---------------------------------------------------------------------------
@@ -1343,7 +1377,102 @@ func scenarioIterator() func(r *vrt.DirectReport, tier string) {
 				b.check("iterator-variable: stage4(role-name) of child", c, 3, c.resolve(3, ownVisible(4), false), g)
 			}
 		})
+		// (D) the iterator generates the leaf itself (a task or a call per element): the iteration variable in the
+		// generated leaf's name, stack, defaults / vars entries and (task) constraint
+		nD := 0
+		for _, leafKind := range []string{"task", "call"} {
+			tsD := &treeSpec{L: 2, leaf: leafKind, iterAt: 2, iterMode: "for", inYAML: true}
+			axD := []axis{{1, kD, avE}, {1, kV, avE}, {2, kD, avE}}
+			nD += forEach(2, axD, func(c *combo) {
+				c.localLevel = 2
+				defer func() { c.localLevel = 0 }()
+				mask := map[probe]bool{{2, 1}: true, {2, 2}: true}
+				if leafKind == "task" {
+					mask[probe{2, 5}] = true
+				}
+				root, err := workflow.LoadFromYAMLForVerifC14(tsD.doc(c, mask, nil), w.parent)
+				if err != nil {
+					panic(err)
+				}
+				err = root.ProcessTemplates(fakeRepo{}, nil, w.base)
+				chains := tsD.chains(root)
+				if err != nil || len(chains) != 2 {
+					b.r.Count("generated leaves -> VIOLATION")
+					b.fail("load of a tree with an iterator over "+leafKind+" roles failed or lost instances", "iterator-variable distribution %s: err=%v instances=%d", c, err, len(chains))
+					return
+				}
+				for idx, roles := range chains {
+					c.localVal = fmt.Sprint(idx)
+					leaf := roles[1]
+					o := "iterator-variable: generated " + leafKind + ": "
+					if n := leaf.GetName(); n != "n2-"+c.localVal {
+						b.r.Count(o + "name -> VIOLATION")
+						b.fail(o+"name", "distribution %s: instance %d is named %q", c, idx, n)
+					} else {
+						b.r.Count(o + "name -> ok")
+					}
+					lvs, _ := leaf.ConsolidatedVarStack()
+					b.check(o+"stack", c, 2, c.resolve(2, allOwn, true), get(lvs, key))
+					b.check(o+"stage1(defaults-entry)", c, 2, c.resolve(2, ownVisible(1), true), unwrap(get(lvs, probeKey(probe{2, 1}))))
+					b.check(o+"stage2(vars-entry)", c, 2, c.resolve(2, ownVisible(2), true), unwrap(get(lvs, probeKey(probe{2, 2}))))
+					if leafKind == "task" {
+						cts := map[string]string{}
+						for _, d := range leaf.GenerateTaskDescriptors() {
+							for _, ct := range d.RoleConstraints {
+								cts[ct.Attribute] = ct.Value
+							}
+						}
+						b.check(o+"stage5(constraint)", c, 2, c.resolve(2, ownVisible(5), true), unwrap(get(cts, "c2")))
+					}
+				}
+			})
+		}
 		key = keySave
+		// (E) an ordinary key seen by a generated task / call leaf
+		nE := 0
+		for _, leafKind := range []string{"task", "call"} {
+			tsE := &treeSpec{L: 2, leaf: leafKind, iterAt: 2, iterMode: "for", inYAML: true}
+			axE := []axis{{1, kV, avE}, {1, kU, avE}, {2, kD, avE}, {2, kV, avE}, {2, kU, avE}}
+			nE += forEach(2, axE, func(c *combo) {
+				mask := map[probe]bool{}
+				if c.resolve(2, allOwn, false).defined() {
+					mask[probe{2, 4}] = true
+				}
+				root, err := workflow.LoadFromYAMLForVerifC14(tsE.doc(c, mask, nil), w.parent)
+				if err != nil {
+					panic(err)
+				}
+				for i, role := range tsE.preChain(root) {
+					if t, ok := slotText(c, i+1, kU); ok {
+						role.SetRuntimeVar(key, t)
+					}
+				}
+				err = root.ProcessTemplates(fakeRepo{}, nil, w.base)
+				chains := tsE.chains(root)
+				if err != nil || len(chains) != 2 {
+					b.r.Count("generated leaves -> VIOLATION")
+					b.fail("load of a tree with an iterator over "+leafKind+" roles failed or lost instances", "key distribution %s: err=%v instances=%d", c, err, len(chains))
+					return
+				}
+				for _, roles := range chains {
+					leaf := roles[1]
+					vs, err := leaf.ConsolidatedVarStack()
+					got := obsError
+					if err == nil {
+						got = get(vs, key)
+					}
+					b.check("ConsolidatedVarStack of generated "+leafKind, c, 2, c.resolve(2, allOwn, false), got)
+					if mask[probe{2, 4}] {
+						n := leaf.GetName()
+						g := "other(" + n + ")"
+						if j := strings.LastIndex(n, "-x"); j >= 0 {
+							g = unwrap(n[j+1:])
+						}
+						b.check("name of generated "+leafKind, c, 2, c.resolve(2, allOwn, false), g)
+					}
+				}
+			})
+		}
 		// (C) the range expression of an iterator sees its parent's consolidated stack
 		tsC := &treeSpec{L: L, leaf: "task", iterAt: 2, iterMode: "range", inYAML: true}
 		axC := axes([]int{1}, allK, avE)
@@ -1371,7 +1500,7 @@ func scenarioIterator() func(r *vrt.DirectReport, tier string) {
 			})
 		})
 		r.Samples = append(r.Samples, "iterator: root{vars k=v1v} > for it in 0..1: n2-{{it}}{defaults k=v2d} > task leaf: both generated leaves must see v1v (vars@ancestor over defaults@parent); with root{vars it=v1v} the generated role sees its own it, its child too")
-		r.Notes = append(r.Notes, fmt.Sprintf("(A) key through generated subtree: %s = %d loads; (B) iterator variable 'it' (no user-supplied 'it' above the iterator and no vars entry 'it' on the iterator itself: the statement does not rank those against the iterator variable): %s = %d loads; (C) range expression x{{ k }}y over environment x root: %d loads", describeAxes(axA), nA, describeAxes(axB), nB, nC))
+		r.Notes = append(r.Notes, fmt.Sprintf("(A) key through generated subtree: %s = %d loads; (B) iterator variable 'it' (no user-supplied 'it' above the iterator and no vars entry 'it' on the iterator itself: the statement does not rank those against the iterator variable): %s = %d loads; (C) range expression x{{ k }}y over environment x root: %d loads; (D) iterator over task / call leaves, iterator variable in name, stack, defaults / vars entries, constraint: %d loads; (E) ordinary key seen by generated task / call leaves: %d loads", describeAxes(axA), nA, describeAxes(axB), nB, nC, nD, nE))
 	}
 }
 
@@ -1402,7 +1531,7 @@ func scenarioInclude() func(r *vrt.DirectReport, tier string) {
 				}
 			}
 			mask := map[probe]bool{}
-			for _, p := range []probe{{2, 4}, {3, 1}, {3, 2}, {4, 4}, {4, 1}} {
+			for _, p := range []probe{{2, 4}, {2, 1}, {2, 2}, {3, 1}, {3, 2}, {4, 4}, {4, 1}} {
 				if c.resolve(p.level, ownVisible(p.stage), false).defined() {
 					mask[p] = true
 				}
@@ -1452,6 +1581,13 @@ func scenarioInclude() func(r *vrt.DirectReport, tier string) {
 			if mask[probe{2, 4}] {
 				b.check("stage4(role-name) of the include role", c, 2, c.resolve(2, allOwn, false), tail(inc.GetName()))
 			}
+			// the include role's own entries are evaluated before the inclusion, by includeRole.ProcessTemplates
+			if mask[probe{2, 1}] {
+				b.check("stage1(defaults-entry) of the include role", c, 2, c.resolve(2, ownVisible(1), false), unwrap(get(ivs, probeKey(probe{2, 1}))))
+			}
+			if mask[probe{2, 2}] {
+				b.check("stage2(vars-entry) of the include role", c, 2, c.resolve(2, ownVisible(2), false), unwrap(get(ivs, probeKey(probe{2, 2}))))
+			}
 			if mask[probe{3, 1}] {
 				b.check("stage1(defaults-entry) of the included root", c, 3, c.resolve(3, ownVisible(1), false), unwrap(get(ivs, probeKey(probe{3, 1}))))
 			}
@@ -1463,6 +1599,35 @@ func scenarioInclude() func(r *vrt.DirectReport, tier string) {
 			}
 			if mask[probe{4, 4}] {
 				b.check("stage4(role-name) of a role of the included tree", c, 4, c.resolve(4, allOwn, false), tail(leaf.GetName()))
+			}
+			// an entry of the include role that refers to the key where the model says nothing is visible
+			// (the role's own maps do not count yet): the load must not produce a value
+			for _, p := range []probe{{2, 1}, {2, 2}} {
+				if mask[p] || (c.at(2, kD) == stA && c.at(2, kV) == stA && c.at(2, kU) == stA) {
+					continue // visible anyway, or nothing of its own that could wrongly be seen
+				}
+				one := map[probe]bool{p: true}
+				root2, err := workflow.LoadFromYAMLForVerifC14(ts.doc(c, one, nil), w.parent)
+				if err != nil {
+					panic(err)
+				}
+				if t, ok := slotText(c, 1, kU); ok {
+					root2.SetRuntimeVar(key, t)
+				}
+				if t, ok := slotText(c, 2, kU); ok {
+					workflow.RawRolesForVerifC14(root2)[0].SetRuntimeVar(key, t)
+				}
+				err = root2.ProcessTemplates(fakeRepo{}, workflow.SubworkflowLoaderForVerifC14(map[string][]byte{"sub": ts.subDoc(c, one)}, fakeRepo{}), w.base)
+				loads++
+				got := obsError
+				if err == nil {
+					got = "other(role pruned)"
+					if rs := root2.GetRoles(); len(rs) == 1 {
+						vs, _ := rs[0].ConsolidatedVarStack()
+						got = unwrap(get(vs, probeKey(p)))
+					}
+				}
+				b.check(stageObs(p.stage)+" of the include role", c, 2, undefinedSrc, got)
 			}
 			if loads == 300 {
 				r.Samples = append(r.Samples, fmt.Sprintf("include: %s -> leaf of the included tree sees %s", c, c.srcName(c.resolve(4, allOwn, false), 4)))
@@ -1675,6 +1840,234 @@ func scenarioCall() func(r *vrt.DirectReport, tier string) {
 	}
 }
 
+// ---------------------------------------------------------------------------
+// scenario "kinds": stage visibility in the role kinds whose ProcessTemplates the templates scenario does not
+// pass through (every role kind builds its own template sequence and variable stack), and in the second
+// spelling of an entry (`!public` mapping with a value)
+
+func scenarioKinds() func(r *vrt.DirectReport, tier string) {
+	return func(r *vrt.DirectReport, tier string) {
+		b := newBook(r)
+		defer b.flush()
+		// (1) a call role as the leaf: enabled, defaults / vars / user-var entries, name
+		tsCall := &treeSpec{L: 2, leaf: "call", inYAML: true}
+		envAx := []axis{{0, kV, av}}
+		if tier == "thorough" {
+			envAx = axes([]int{0}, allK, av)
+		}
+		roleAx := axes([]int{1, 2}, allK, avE)
+		e1, l1 := stageGrid(r, b, tsCall, envAx, roleAx, func(l int) []int {
+			if l == 2 {
+				return []int{0, 1, 2, 3, 4}
+			}
+			return []int{4}
+		}, "call-leaf: ", 700)
+		// (2) entries written as `!public` mappings: a definition like any other, an empty value included
+		tsTag := &treeSpec{L: 2, leaf: "task", inYAML: true, tagged: true}
+		envAx2 := []axis{{0, kD, av}}
+		roleAx2 := []axis{{1, kD, avE}, {1, kV, avE}, {2, kD, avE}, {2, kV, avE}}
+		if tier == "thorough" {
+			roleAx2 = axes([]int{1, 2}, allK, avE)
+		}
+		e2, l2 := stageGrid(r, b, tsTag, envAx2, roleAx2, func(int) []int { return []int{1, 2, 4} }, "public-tagged: ", 100)
+		r.Notes = append(r.Notes, fmt.Sprintf("(1) root > call leaf, probes at the call role: enabled, defaults / vars / user-var entry, name; axes %s x %s = %d distributions, %d loads; (2) root > task leaf with the key's defaults / vars entries spelled `!public {value: ...}`: probes defaults entry, vars entry, name at both roles; axes %s x %s = %d distributions, %d loads", describeAxes(envAx), describeAxes(roleAx), e1, l1, describeAxes(envAx2), describeAxes(roleAx2), e2, l2))
+	}
+}
+
+// ---------------------------------------------------------------------------
+// scenario "taskclass": the four control modes; task-template entries that are templates themselves
+// (a reference from the task template's level to the workflow's / to the template's own defaults)
+
+const classDocModes = `
+name: cls
+%s
+control:
+  mode: %s
+wants:
+  cpu: 0.1
+  memory: 1
+command:
+  value: "x{{ k }}y"
+  user: "x{{ k }}y"
+  arguments: [%s]
+  env: ["x{{ k }}y"]
+properties:
+%s
+`
+
+func scenarioTaskClass() func(r *vrt.DirectReport, tier string) {
+	return func(r *vrt.DirectReport, tier string) {
+		b := newBook(r)
+		defer b.flush()
+		const L = 2
+		ts := &treeSpec{L: L, leaf: "task"}
+		w := newWorld(newCombo(L))
+		roleAx := []axis{{1, kV, av}, {2, kD, avE}, {2, kV, avE}, {2, kU, avE}}
+		if tier == "thorough" {
+			roleAx = axes([]int{1, 2}, allK, avE)
+		}
+		evals := 0
+		verdict := func(ok bool) string { return map[bool]string{true: "ok", false: "VIOLATION"}[ok] }
+		for _, mode := range []string{"direct", "fairmq", "basic", "hook"} {
+			propsTemplated := mode == "direct" || mode == "fairmq" // basic tasks and hooks are plain commands: no property push
+			for cd := int8(0); cd < 2; cd++ {
+				for cv := int8(0); cv < 2; cv++ {
+					for refs := 0; refs < 4; refs++ { // bit 0: a defaults entry refers to k, bit 1: a vars entry refers to k
+						withD, withV := refs&1 != 0, refs&2 != 0
+						var sb strings.Builder
+						sb.WriteString("defaults:\n  class_filler: f\n")
+						if cd == stV {
+							sb.WriteString("  k: cd\n")
+						}
+						if withD {
+							sb.WriteString("  dref: \"d<{{ k }}>\"\n")
+						}
+						sb.WriteString("vars:\n  class_filler2: f\n")
+						if cv == stV {
+							sb.WriteString("  k: cv\n")
+						}
+						if withV {
+							sb.WriteString("  vref: \"v<{{ k }}>\"\n")
+						}
+						args, props := `"x{{ k }}y"`, "  prop: \"x{{ k }}y\"\n"
+						if withD {
+							args += `, "x{{ dref }}y"`
+							props += "  pdref: \"x{{ dref }}y\"\n"
+						}
+						if withV {
+							args += `, "x{{ vref }}y"`
+							props += "  pvref: \"x{{ vref }}y\"\n"
+						}
+						var class taskclass.Class
+						if err := yaml.Unmarshal([]byte(fmt.Sprintf(classDocModes, sb.String(), mode, args, props)), &class); err != nil {
+							panic(err)
+						}
+						root, err := workflow.LoadFromYAMLForVerifC14(ts.doc(newCombo(L), nil, nil), w.parent)
+						if err != nil {
+							panic(err)
+						}
+						if err = root.ProcessTemplates(fakeRepo{}, nil, w.base); err != nil {
+							panic(err)
+						}
+						roles := ts.chains(root)[0]
+						tk, err := task.NewTaskForVerifC14(&class, roles[1], "host1")
+						if err != nil {
+							panic(err)
+						}
+						inClass := fmt.Sprintf("mode=%s class{defaults:%c vars:%c defaults-entry-refers:%v vars-entry-refers:%v}", mode, "-V"[cd], "-V"[cv], withD, withV)
+						forEach(L, roleAx, func(c *combo) {
+							applyAPI(c, roles, allOwn)
+							evals++
+							wf := c.resolve(L, allOwn, false)
+							// what the task sees for k, and what an entry of the template's defaults / vars sees for k
+							// (defaults entry: the workflow only; vars entry: the workflow, then the template's defaults)
+							seen, seenDef := undefinedSrcStr, false
+							switch {
+							case wf.defined():
+								seen, seenDef = c.value(wf), true
+							case cv == stV:
+								seen, seenDef = "cv", true
+							case cd == stV:
+								seen, seenDef = "cd", true
+							}
+							dSees, dOK := "", wf.defined()
+							if dOK {
+								dSees = c.value(wf)
+							}
+							vSees, vOK := dSees, dOK
+							if !vOK && cd == stV {
+								vSees, vOK = "cd", true
+							}
+							mustFail := !seenDef || (withD && !dOK) || (withV && !vOK)
+							// observe
+							cmdErr := tk.BuildTaskCommandForVerifC14()
+							var ci []string
+							if cmdErr == nil {
+								i := tk.GetTaskCommandInfo()
+								ci = append([]string{*i.Value, *i.User, i.Env[0]}, i.Arguments...)
+							}
+							pm, propErr := tk.BuildPropertyMap(nil)
+							cls := "taskclass mode=" + mode + " "
+							if mustFail {
+								// some template of the task refers to a variable nothing visible defines: no command line
+								r.Count(cls + "command-line: a reference sees nothing -> must fail -> " + verdict(cmdErr != nil))
+								if cmdErr == nil {
+									b.fail("command-line: reference to a variable no visible source defines resolved to a value:mode="+mode, "key distribution %s, %s: command line built: %q", c, inClass, ci)
+								}
+								return
+							}
+							want := []string{"x" + seen + "y", "x" + seen + "y", "x" + seen + "y", "x" + seen + "y"}
+							names := []string{"value", "user", "env", "argument"}
+							if withD {
+								want, names = append(want, "xd<"+dSees+">y"), append(names, "argument-via-defaults-entry")
+							}
+							if withV {
+								want, names = append(want, "xv<"+vSees+">y"), append(names, "argument-via-vars-entry")
+							}
+							if cmdErr != nil {
+								r.Count(cls + "command-line -> VIOLATION")
+								b.fail("command-line: not built:mode="+mode, "key distribution %s, %s: BuildTaskCommand failed: %v", c, inClass, cmdErr)
+							} else {
+								for i, f := range names {
+									got := ci[i]
+									if mode == "fairmq" && i >= len(want) {
+										break
+									}
+									okv := got == want[i]
+									r.Count(cls + "command-line " + f + " -> " + verdict(okv))
+									if !okv {
+										what := "wrong-value"
+										if strings.Contains(got, "{{") {
+											what = "unresolved-template-text"
+										}
+										b.fail("command-line "+f+":"+what+":mode="+mode, "key distribution %s, %s: command line %s is %q, want %q", c, inClass, f, got, want[i])
+									}
+								}
+							}
+							if !propsTemplated {
+								return
+							}
+							pw := map[string]string{"prop": "x" + seen + "y"}
+							if withD {
+								pw["pdref"] = "xd<" + dSees + ">y"
+							}
+							if withV {
+								pw["pvref"] = "xv<" + vSees + ">y"
+							}
+							for _, pk := range []string{"prop", "pdref", "pvref"} {
+								wv, ok := pw[pk]
+								if !ok {
+									continue
+								}
+								got := obsError
+								if propErr == nil {
+									got = get(pm, pk)
+								}
+								okv := got == wv
+								via := map[string]string{"prop": "property", "pdref": "property-via-defaults-entry", "pvref": "property-via-vars-entry"}[pk]
+								r.Count(cls + via + " -> " + verdict(okv))
+								if !okv {
+									what := "wrong-value"
+									if strings.Contains(got, "{{") {
+										what = "unresolved-template-text"
+									}
+									b.fail(via+":"+what+":mode="+mode, "key distribution %s, %s: property %s is %q, want %q (the command line of the same task has %q)", c, inClass, pk, printable(got), wv, ci)
+								}
+							}
+							if evals == 2000 {
+								r.Samples = append(r.Samples, fmt.Sprintf("taskclass: %s %s -> command line %q properties %v", c, inClass, ci, pm))
+							}
+						})
+					}
+				}
+			}
+		}
+		r.Notes = append(r.Notes, fmt.Sprintf("grid: control modes {direct, fairmq, basic, hook} x class defaults k {absent, cd} x class vars k {absent, cv} x {a class defaults entry d<{{ k }}>, a class vars entry v<{{ k }}>} present or not x %s = %d distributions; BuildTaskCommand (value, user, env, arguments incl. those going through the two entries) and, for direct / fairmq, BuildPropertyMap (prop and the two properties going through the entries)", describeAxes(roleAx), evals))
+	}
+}
+
+const undefinedSrcStr = ""
+
 func main() {
 	vrt.Main([]*vrt.Scenario{
 		{Name: "stack", Prop: "C14", Direct: scenarioStack(), Doc: "ConsolidatedVarStack/ConsolidatedVarMaps/gera Get/FlattenStack at every role, all key distributions"},
@@ -1684,6 +2077,8 @@ func main() {
 		{Name: "include", Prop: "C14", Direct: scenarioInclude(), Doc: "include role: own entries, entries of the included template's root, included subtree"},
 		{Name: "task", Prop: "C14", Direct: scenarioTask(), Doc: "task command line and property map; class defaults/vars below the workflow"},
 		{Name: "call", Prop: "C14", Direct: scenarioCall(), Doc: "call function evaluated with the role's consolidated stack"},
+		{Name: "taskclass", Prop: "C14", Direct: scenarioTaskClass(), Doc: "control modes direct / fairmq / basic / hook; task-template defaults / vars entries that refer to a variable"},
+		{Name: "kinds", Prop: "C14", Direct: scenarioKinds(), Doc: "stage visibility at a call role; entries spelled as !public mappings"},
 	})
 	if cfgFile != "" {
 		os.RemoveAll(filepath.Dir(cfgFile)) // the scratch configuration store
